@@ -161,6 +161,14 @@ func (g *genState) comments(d *Directive) {
 			d.Before = append(d.Before, "BB"+strconv.Itoa(d.ID))
 		}
 		d.Suffix = "S" + strconv.Itoa(d.ID)
+		// bare lines: nothing above (so that a blank line above is the line's only "comment"), nothing after
+		if gen.Chance(g.t, 25, "nobefore") {
+			d.Before = nil
+		}
+		if gen.Chance(g.t, 20, "nosuffix") {
+			d.Suffix = ""
+			return
+		}
 		if gen.Chance(g.t, 6, "indirectword") {
 			// ordinary comments that begin like the indirect marker but are not it
 			d.Suffix = pick(g.t, []string{"indirect dependency ", "indirectly ", "indirect;x ", "indirect, ", "Indirect ", "indirect ; "}, "iword") + d.Suffix
@@ -460,6 +468,18 @@ func (d Directive) Tokens(interval bool) []string {
 func IsIndirectMarker(text string) bool {
 	f := strings.Fields(text)
 	return len(f) == 1 && f[0] == "indirect" || len(f) > 1 && f[0] == "indirect;"
+}
+
+// LineOf returns the line with the given ID.
+func (f File) LineOf(id int) (Directive, bool) {
+	for _, s := range f.Stmts {
+		for _, d := range s.Lines {
+			if d.ID == id {
+				return d, true
+			}
+		}
+	}
+	return Directive{}, false
 }
 
 // SuffixOf returns the end-of-line comment text given to the line with the given ID.
